@@ -10,6 +10,7 @@ import (
 	"net"
 	"os"
 	"regexp"
+	"runtime"
 	"sync"
 	"time"
 )
@@ -36,9 +37,11 @@ type Fault struct {
 	K    int    `json:"k,omitempty"`
 	B    int    `json:"b,omitempty"`
 	// Cancel: "" (never), "idle" (the context is cancelled when operation
-	// CancelAt is entered, the deadline pulse of the library is awaited, then
-	// the operation proceeds normally), "blocked" (the context is cancelled as
-	// soon as an operation blocks).
+	// CancelAt is entered, the library's reaction on the deadlines is awaited,
+	// then the operation proceeds), "after" (the same when operation CancelAt has
+	// succeeded, before it returns to the library: a cancellation between two
+	// operations), "blocked" (the context is cancelled as soon as an operation
+	// blocks).
 	Cancel   string `json:"cancel,omitempty"`
 	CancelAt int    `json:"cancel_at,omitempty"`
 }
@@ -90,6 +93,7 @@ type Pipe struct {
 	blockedNotify    chan struct{} // receives one value whenever an operation starts blocking
 	OnOp             func(raw int) // called (without the lock) when raw operation number raw is entered
 	Rec              *Recorder     // model-level operations of the clear-text phase are logged here
+	OnOpDone         func(raw int) // called (without the lock) when raw operation number raw has succeeded, before it returns
 	AllOut           []byte        // everything the library wrote (successful writes)
 	blockedOps       int
 	everBlockedAfter bool
@@ -188,7 +192,11 @@ func (p *Pipe) WaitDeadlineCalls(n int, d time.Duration) bool {
 		if time.Now().After(end) {
 			return false
 		}
-		time.Sleep(50 * time.Microsecond)
+		if d < time.Millisecond {
+			runtime.Gosched() // a short grace: spin, the sleep granularity is coarser than the wait
+		} else {
+			time.Sleep(20 * time.Microsecond)
+		}
 	}
 }
 
@@ -332,6 +340,11 @@ func (c LibConn) Read(b []byte) (int, error) {
 				p.toLib.chunks[0] = p.toLib.chunks[0][n:]
 			}
 			p.delivered += n
+			if hook := p.OnOpDone; hook != nil {
+				p.mu.Unlock()
+				hook(idx)
+				p.mu.Lock()
+			}
 			return n, nil
 		} else if p.toLib.closed {
 			p.markFailed(idx, false)
@@ -384,6 +397,11 @@ func (c LibConn) Write(b []byte) (int, error) {
 	if p.live && !p.toPeer.closed {
 		p.toPeer.chunks = append(p.toPeer.chunks, append([]byte{}, b...))
 		p.cond.Broadcast()
+	}
+	if hook := p.OnOpDone; hook != nil {
+		p.mu.Unlock()
+		hook(idx)
+		p.mu.Lock()
 	}
 	return len(b), nil
 }
